@@ -31,6 +31,7 @@ type World struct {
 	finalsN int
 	crashed bool // marks were lost in a crash restart
 	refused int
+	okData  int // accepting data ticks (empty script) since the last committed block / non-accepting data tick
 	incAt   map[int]uint64 // DA-included height the node reported right before its n-th durable write
 }
 
@@ -139,7 +140,7 @@ func Run(c *hx.Ctx) {
 			w.opt = bm.Options{InitialHeight: ih, GenesisTime: time.Unix(0, o.I64("gt")), MaxPending: maxp, Aggregator: true}
 			w.da = hx.NewDA()
 			w.ts = o.I64("gt")
-			w.lastInc, w.lastHwm, w.lastDwm, w.crashed, w.refused = 0, 0, 0, false, 0
+			w.lastInc, w.lastHwm, w.lastDwm, w.crashed, w.refused, w.okData = 0, 0, 0, false, 0, 0
 			c.Emit("%s", w.start(nil, ""))
 			if !w.dead {
 				// heights below the initial height need no inclusion: the reported height starts at initialHeight-1,
@@ -161,6 +162,9 @@ func Run(c *hx.Ctx) {
 				cls = "err"
 			}
 			refused := err == nil && e.Height() == hb && e.Seq.Calls == calls && len(e.Exec.Calls) == execs && e.DS.NumWrites() == w.from
+			if e.Height() != hb {
+				w.okData = 0
+			}
 			if refused {
 				cls = "refused"
 				w.refused++
@@ -210,6 +214,13 @@ func Run(c *hx.Ctx) {
 				out = "done" // a cancelled submission returns nil
 			}
 			c.Emit("%s out=%s calls=%s %s w=%s", o.Verb, out, cs, w.state(), bm.DescribeWrites(e.DS, w.from))
+			if o.Verb == "subd" {
+				if s := o.Str("script"); s == "" || s == "-" {
+					w.okData++
+				} else {
+					w.okData = 0
+				}
+			}
 			w.monitorSubmit(o.Verb, n0, left)
 		case "incl", "inclreal":
 			e := w.env
@@ -471,6 +482,18 @@ func (w *World) monitorSubmit(verb string, n0, scriptLeft int) {
 			}
 		}
 	}
+	// nothing to submit and an accepting DA layer: when every pending block is empty the data tick passes over them
+	if verb == "subd" && scriptLeft == 0 && len(w.da.Submits) == n0 && dm < e.Height() {
+		allEmpty := true
+		for k := dm + 1; k <= e.Height(); k++ {
+			if _, d, err := e.Store.GetBlockData(ctx, k); err != nil || len(d.Txs) > 0 {
+				allEmpty = false
+			}
+		}
+		if allEmpty {
+			c.Report("C06/retry/empty-blocks-left-behind", fmt.Sprintf("data watermark %d height %d: every pending block is empty, the tick submitted nothing and left them pending", dm, e.Height()))
+		}
+	}
 	// nothing is ever submitted although blocks are committed
 	if verb == "subh" && len(w.da.Submits) == n0 && e.Height() >= ih && hm < e.Height() {
 		if ih > 1 {
@@ -503,6 +526,10 @@ func (w *World) checkRefusal() {
 	switch {
 	case ih > 1 && (nh >= limit && nh > waitH || nd >= limit && nd > waitD) && uint64(e.Height())-(ih-1) < limit:
 		c.Report("C08/refuses/initial-height-counted-as-pending", fmt.Sprintf("limit %d, waiting headers %d data %d, counters %d/%d", limit, waitH, waitD, nh, nd))
+	case nd >= limit && waitD < limit && nh < limit && w.okData < 2:
+		// the data counter is chain height minus watermark: it counts the empty blocks above the watermark until the
+		// data loop has passed over them, which takes one accepting tick for the non-empty blocks before them and one
+		// more for trailing empty blocks; only a refusal that survives two accepting data ticks is unjustified
 	case nd >= limit && waitD < limit && nh < limit:
 		c.Report("C08/refuses/empty-blocks-counted-as-pending-data", fmt.Sprintf("limit %d, non-empty data waiting %d, counter %d", limit, waitD, nd))
 	default:
